@@ -1,27 +1,294 @@
-import LitexModel.Axi.LiteInterconnect
-import LitexProofs.RoundRobin
+import LitexProofs.Axi.LiteRun
 /-
   C08 — AXI-Lite (and AXI) interconnect keeps grants and routes until every response has returned.
-  (first milestone: one-step facts; the trace-level theorems follow)
+
+  Models (`LitexModel/Axi/Lite*.lean`): one *direction* (write: aw/w/b, read: ar/r) of
+    `Shared.machine c rd`    = `AXILiteInterconnectShared` / `AXIInterconnectShared`  (arbiter → bus → decoder),
+    `Crossbar.machine c rd`  = `AXILiteCrossbar` / `AXICrossbar`  (a decoder per master, an arbiter per slave);
+  the complete fabric is `both (… false) (… true)` (`Shared.full`, `Crossbar.full`).  `c.full` selects the AXI4
+  classes (read responses counted on `last`).  Masters and slaves are environment: `x : DirIn` gives, for one cycle,
+  arbitrary values of every master's address/data valid, address, payloads, response ready and of every slave's
+  readies, response valid/last/payload.
+
+  Quantifiers.  Run theorems are by induction over `ins : List DirIn` — every schedule of the five channels (address
+  before/with/after data, several outstanding requests, back-pressure, any slave latency and acceptance order);
+  the numbers of masters and slaves `c.n`, `c.m`, the address map `c.dec`, the data width (`c.shift`) and AXI-Lite vs
+  AXI4 are arbitrary.  Hypotheses are explicit and decidable cycle by cycle against the routing scoreboard
+  (`EnvOK`, `LitexModel/Axi/LiteInterconnectSpec.lean`):
+      slaveLegal   a slave raises a response only while it holds an unanswered request          (AXI)
+      sameSlave    SameSlaveWhileLocked: a master with unanswered requests at slave j presents only addresses of j
+      noOverflow   a slave holding 255 unanswered requests does not accept another one          (8-bit counters)
+  and `Disjoint c` (no address belongs to two slaves; C13 provides this for SoC regions), `0 < c.n`.
+
+  The property as written ("each accepted address reaches the slave chosen by its address … for all schedules") is
+  FALSE on the code without `sameSlave`, and the write-data part is false without NoDataBeforeAddr: see the two
+  negative witnesses at the end (both are known findings, replayed on the real code by `harness/props/c08.py`).
 -/
-namespace Litex.Axi.Lite
-open Litex
+namespace Litex.C08
+open Litex Litex.Axi.Lite
 
-/-- The grant of one direction of the arbiter does not move in a cycle in which that direction's counter is
-    non-zero or the owner drives an address/data valid or the target drives a response valid. -/
-theorem axl_grant_frozen_step (n : Nat) (gated : Bool) (s : ArbState) (ms : Nat → DMS) (sm : DSM)
-    (hg : s.grant < n)
+/-! ## Outstanding-request counters -/
+
+/-- **`axl_counter_inv`** — the counter register equals accepted requests minus delivered responses, for every
+    event sequence in which a response leaves only while a request is outstanding (or together with one) and at
+    most 255 requests are outstanding. -/
+theorem axl_counter_inv (evs : List (Bool × Bool)) (h : CtrLegal 0 evs) :
+    ctrRun 0 evs = outstandingSpec 0 evs :=
+  ctrRun_spec evs 0 h
+
+/-- non-vacuity: request, request+response, response. -/
+example : CtrLegal 0 [(true, false), (true, true), (false, true)] ∧
+    ctrRun 0 [(true, false), (true, true), (false, true)] = 0 ∧ ctrRun 0 [(true, false), (true, false)] = 2 := by
+  refine ⟨?_, by decide, by decide⟩
+  simp [CtrLegal, maxReq]
+
+/-- Saturation as coded (`stall` is computed and never used): from 255 the 256th unanswered request is accepted by
+    the fabric but not counted — the region excluded by the second conjunct of `CtrLegal`. -/
+example : ctrRun 255 [(true, false)] = 255 ∧ outstandingSpec 255 [(true, false)] = 256 := by decide
+
+/-- **`axl_counter_inv_shared`** — in every state the shared interconnect reaches under a behaving environment,
+    the arbiter's and the decoder's counter both equal the number of unanswered requests on the port-level
+    scoreboard (accepted at the slaves, response not yet handed back). -/
+theorem axl_counter_inv_shared (c : Cfg) (rd : Bool) (hd : Disjoint c) (hn : 0 < c.n) (ins : List DirIn)
+    (henv : EnvAll (Shared.machine c rd) c rd (Shared.init c rd) Fifo.empty ins) :
+    let r := runSB (Shared.machine c rd) c rd (Shared.init c rd) Fifo.empty ins
+    r.1.arb.cnt = r.2.total c.m ∧ r.1.dec.cnt = r.2.total c.m :=
+  Shared.counters c _ _ (Shared.inv_run c rd hd ins _ _ (Shared.inv_reset c rd hn) henv)
+
+/-- **`axl_counter_inv_crossbar`** — crossbar: the arbiter in front of slave `j` counts slave `j`'s unanswered
+    requests, the decoder behind master `i` counts master `i`'s. -/
+theorem axl_counter_inv_crossbar (c : Cfg) (rd : Bool) (hd : Disjoint c) (hn : 0 < c.n) (ins : List DirIn)
+    (henv : EnvAll (Crossbar.machine c rd) c rd (Crossbar.init c rd) Fifo.empty ins) :
+    let r := runSB (Crossbar.machine c rd) c rd (Crossbar.init c rd) Fifo.empty ins
+    (∀ j, j < c.m → (Crossbar.arb r.1 j).cnt = (r.2 j).length) ∧
+    (∀ i, i < c.n → (Crossbar.dcd r.1 i).cnt = r.2.ofMaster c.m i) :=
+  Crossbar.counters c _ _ (Crossbar.inv_run c rd hd ins _ _ (Crossbar.inv_reset c rd hn) henv)
+
+/-! ## Frozen grant and frozen select -/
+
+/-- **`axl_grant_frozen`** — in EVERY state and for EVERY input: the write (read) grant of an arbiter does not
+    change at the clock edge while that direction's counter is non-zero or the owner drives `aw|w` (`ar`) valid or
+    the target drives `b` (`r`) valid. -/
+theorem axl_grant_frozen (n : Nat) (gated : Bool) (s : ArbState) (ms : Nat → DMS) (sm : DSM) (hg : s.grant < n)
     (h : s.cnt ≠ 0 ∨ (ms s.grant).aValid = true ∨ (ms s.grant).dValid = true ∨ sm.rValid = true) :
-    (Arb.next n gated s ms sm).grant = s.grant := by
-  have hce : Arb.ce s ms sm = false := by
-    unfold Arb.ce Arb.tgt ctrEmpty
-    rcases h with h | h | h | h
-    · have : (s.cnt == 0) = false := by simpa using h
-      simp [this]
-    · simp [h]
-    · simp [h]
-    · simp [h]
-  simp only [Arb.next, hce]
-  exact RoundRobin.next_ce_hold _ hg
+    (Arb.next n gated s ms sm).grant = s.grant :=
+  Arb.grant_frozen n gated s ms sm hg h
 
-end Litex.Axi.Lite
+/-- **`axl_lock_held_shared`** — along every run with a behaving environment: while some slave `j` holds an
+    unanswered request (scoreboard entry, i.e. accepted at the slave port and not yet answered), whatever the
+    masters and slaves drive next, the grant does not move, the select points at `j` and only at `j` regardless of the
+    address lines, and all unanswered requests are the grant owner's. -/
+theorem axl_lock_held_shared (c : Cfg) (rd : Bool) (hd : Disjoint c) (hn : 0 < c.n) (ins : List DirIn)
+    (henv : EnvAll (Shared.machine c rd) c rd (Shared.init c rd) Fifo.empty ins) :
+    let r := runSB (Shared.machine c rd) c rd (Shared.init c rd) Fifo.empty ins
+    ∀ j, j < c.m → r.2 j ≠ [] →
+      (∀ x, (Shared.next c rd r.1 x).arb.grant = r.1.arb.grant) ∧
+      (∀ x k, k < c.m → Shared.selOf c rd r.1 x k = (k == j)) ∧
+      (∀ a ∈ r.2 j, a = r.1.arb.grant) := by
+  intro r j hj hne
+  exact Shared.lock_held c rd _ _ (Shared.inv_run c rd hd ins _ _ (Shared.inv_reset c rd hn) henv) j hj hne
+
+/-- **`axl_lock_held_crossbar`** — crossbar: while slave `j` holds an unanswered request its arbiter's grant does
+    not move, the requests are all the grant owner's, and the decoder of every master with an unanswered request at
+    `j` selects `j` and only `j`. -/
+theorem axl_lock_held_crossbar (c : Cfg) (rd : Bool) (hd : Disjoint c) (hn : 0 < c.n) (ins : List DirIn)
+    (henv : EnvAll (Crossbar.machine c rd) c rd (Crossbar.init c rd) Fifo.empty ins) :
+    let r := runSB (Crossbar.machine c rd) c rd (Crossbar.init c rd) Fifo.empty ins
+    ∀ j, j < c.m → r.2 j ≠ [] →
+      (∀ x, (Crossbar.arb (Crossbar.next c rd r.1 x) j).grant = (Crossbar.arb r.1 j).grant) ∧
+      (∀ i, i < c.n → i ∈ r.2 j → ∀ x k, k < c.m → Crossbar.selI c rd r.1 x i k = (k == j)) ∧
+      (∀ a ∈ r.2 j, a = (Crossbar.arb r.1 j).grant) := by
+  intro r j hj hne
+  exact Crossbar.lock_held c rd _ _ (Crossbar.inv_run c rd hd ins _ _ (Crossbar.inv_reset c rd hn) henv) j hj hne
+
+/-! ## Independence of the write and the read direction -/
+
+/-- **`axl_rw_independent`** — a complete fabric run is the write machine on the write signals next to the read
+    machine on the read signals: the registers of either direction after any run, and everything any port sees on
+    the channels of that direction in any cycle, are functions of that direction's inputs alone. -/
+theorem axl_rw_independent {σ : Type} (mw mr : Machine DirIn σ DirOut) (ins : List BusIn) :
+    ((both mw mr).run ins).w = mw.run (ins.map wIn) ∧ ((both mw mr).run ins).r = mr.run (ins.map rIn) ∧
+    ((both mw mr).trace ins).map (fun o => (fun j => (o.toS j).w, fun i => (o.toM i).w)) =
+      (mw.trace (ins.map wIn)).map (fun o => (o.toS, o.toM)) ∧
+    ((both mw mr).trace ins).map (fun o => (fun j => (o.toS j).r, fun i => (o.toM i).r)) =
+      (mr.trace (ins.map rIn)).map (fun o => (o.toS, o.toM)) :=
+  ⟨(both_run mw mr ins _).1, (both_run mw mr ins _).2, (both_trace mw mr ins _).1, (both_trace mw mr ins _).2⟩
+
+/-! ## Routing -/
+
+/- Full statement (FALSE on the code, see the negative witnesses):
+   theorem axl_route : ∀ ins, Holds' … where the environment is only required to be AXI-legal. -/
+
+/-- **`axl_route_partial`** (shared interconnect) — for every run from reset: in every cycle up to which the
+    environment has behaved (`EnvOK`: AXI-legal slaves, SameSlaveWhileLocked, ≤ 255 outstanding)
+      * every address handshake at a master is an address handshake at the slave its address decodes to, and every
+        address handshake at a slave is the request of exactly one master, with that master's address and payload;
+      * every response handshake at slave `j` is in the same cycle a response handshake, with the same payload, at
+        the issuer of slave `j`'s oldest unanswered request, and every response handshake at a master comes from
+        exactly one such slave (delivered exactly once, to the issuer, in issue order);
+      * all unanswered requests of the bus belong to one master. -/
+theorem axl_route_partial (c : Cfg) (rd : Bool) (hd : Disjoint c) (hn : 0 < c.n) (ins : List DirIn) :
+    Holds (Shared.machine c rd) c rd true (Shared.init c rd) Fifo.empty ins :=
+  Shared.holds_of_inv c rd hd ins _ _ (Shared.inv_reset c rd hn)
+
+/-- **`axl_route_crossbar_partial`** — the same for the crossbar, with one owner per slave. -/
+theorem axl_route_crossbar_partial (c : Cfg) (rd : Bool) (hd : Disjoint c) (hn : 0 < c.n) (ins : List DirIn) :
+    Holds (Crossbar.machine c rd) c rd false (Crossbar.init c rd) Fifo.empty ins :=
+  Crossbar.holds_of_inv c rd hd ins _ _ (Crossbar.inv_reset c rd hn)
+
+/-! ## Bounded waiting -/
+
+/-- **`axl_eventually_served`** (shared) — while master `i` keeps presenting an address, every cycle in which the
+    bus can be handed over (`rr.ce`: the owner drives nothing and no response is outstanding — the end of a lock
+    period) and `i` is not the owner moves the grant strictly closer to `i`:
+    (number of such cycles) + (distance still to go) ≤ initial distance ≤ n-1.
+    With slaves that eventually answer and masters that eventually accept, every lock period ends, so `i` is
+    granted after at most n-1 lock periods of other masters. -/
+theorem axl_eventually_served (c : Cfg) (rd : Bool) (i : Nat) (hi : i < c.n) (s : ShDir) (hg : s.arb.grant < c.n)
+    (ins : List DirIn) (hreq : ∀ x ∈ ins, (x.ms i).aValid = true) :
+    Shared.handovers c rd i s ins + RoundRobin.dist c.n ((Shared.machine c rd).runFrom s ins).arb.grant i
+      ≤ RoundRobin.dist c.n s.arb.grant i ∧ RoundRobin.dist c.n s.arb.grant i ≤ c.n - 1 :=
+  ⟨Shared.bounded_wait c rd i hi ins s hg hreq, by have := RoundRobin.dist_lt c.n s.arb.grant i (by omega); omega⟩
+
+/-- … hence after n-1 hand-over opportunities `i` owns the bus. -/
+theorem axl_served_within (c : Cfg) (rd : Bool) (i : Nat) (hi : i < c.n) (s : ShDir) (hg : s.arb.grant < c.n)
+    (ins : List DirIn) (hreq : ∀ x ∈ ins, (x.ms i).aValid = true)
+    (hmany : c.n - 1 ≤ Shared.handovers c rd i s ins) :
+    ((Shared.machine c rd).runFrom s ins).arb.grant = i := by
+  obtain ⟨h1, h2⟩ := axl_eventually_served c rd i hi s hg ins hreq
+  have hfin : ((Shared.machine c rd).runFrom s ins).arb.grant < c.n := by
+    clear h1 h2 hmany hreq
+    induction ins generalizing s with
+    | nil => exact hg
+    | cons x xs ih => exact ih (Shared.next c rd s x) (Arb.next_grant_lt _ _ _ _ _ hg)
+  exact RoundRobin.dist_eq_zero hfin hi (by omega)
+
+/-- **`axl_eventually_served_crossbar`** — the same for the arbiter in front of slave `j` while master `i` keeps
+    presenting an address that its decoder forwards to `j`. -/
+theorem axl_eventually_served_crossbar (c : Cfg) (rd : Bool) (i j : Nat) (hi : i < c.n) (hj : j < c.m)
+    (s : XbDir) (hg : (Crossbar.arb s j).grant < c.n) (ins : List DirIn) (hreq : Crossbar.Requests c rd i j s ins) :
+    Crossbar.handovers c rd i j s ins +
+      RoundRobin.dist c.n (Crossbar.arb ((Crossbar.machine c rd).runFrom s ins) j).grant i
+      ≤ RoundRobin.dist c.n (Crossbar.arb s j).grant i ∧ RoundRobin.dist c.n (Crossbar.arb s j).grant i ≤ c.n - 1 :=
+  ⟨Crossbar.bounded_wait c rd i j hi hj ins s hg hreq,
+   by have := RoundRobin.dist_lt c.n (Crossbar.arb s j).grant i (by omega); omega⟩
+
+/-! ## Concrete instances: the hypotheses are satisfiable, and the excluded regions really fail -/
+
+/-- 2 masters, 2 slaves, 8-bit data, slave `j` owns the byte addresses with `a >> 1 = j` (harness map "cover"). -/
+def cfg22 : Cfg := { n := 2, m := 2, dec := fun j a => (a >>> 1) == j, shift := 0, full := false }
+
+theorem cfg22_disjoint : Disjoint cfg22 := by
+  intro a j k _ _ h1 h2
+  simp only [cfg22, beq_iff_eq] at h1 h2
+  omega
+
+/-- cycle 0: master 0 presents address 2 (slave 1), slave 1 accepts. -/
+def xa : DirIn :=
+  { ms := fun i => if i = 0 then { aValid := true, aAddr := 2, aPay := 5, rReady := true } else {},
+    ss := fun j => if j = 1 then { aReady := true } else {} }
+/-- cycle 1: slave 1 answers, master 0 takes the response. -/
+def xb : DirIn :=
+  { ms := fun i => if i = 0 then { rReady := true } else {},
+    ss := fun j => if j = 1 then { rValid := true, rPay := 3 } else {} }
+
+/-- Non-vacuity of `axl_route_partial` / `axl_lock_held_shared`: a run inside the hypotheses with an accepted address
+    (master 0 → slave 1), a held lock and a delivered response. -/
+example :
+    let M := Shared.machine cfg22 false
+    let s0 := Shared.init cfg22 false
+    let o0 := M.out s0 xa
+    let s1 := M.next s0 xa
+    let g1 := fifoNext cfg22 false Fifo.empty xa o0
+    let o1 := M.out s1 xb
+    mReq xa o0 0 = true ∧ sReq xa o0 1 = true ∧ sReq xa o0 0 = false ∧ g1 1 = [0] ∧ g1 0 = [] ∧
+    s1.arb.cnt = 1 ∧ s1.dec.cnt = 1 ∧
+    sRsp xb o1 1 = true ∧ mRsp xb o1 0 = true ∧ mRsp xb o1 1 = false ∧ (o1.toM 0).rPay = 3 ∧
+    (M.next s1 xb).arb.cnt = 0 := by
+  decide
+
+example : EnvAll (Shared.machine cfg22 false) cfg22 false (Shared.init cfg22 false) Fifo.empty [xa, xb] := by
+  have hg1 : fifoNext cfg22 false Fifo.empty xa ((Shared.machine cfg22 false).out (Shared.init cfg22 false) xa) 1 = [0] := by
+    decide
+  refine ⟨⟨?_, ?_, ?_⟩, ⟨?_, ?_, ?_⟩, trivial⟩
+  · intro j _ h
+    by_cases e : j = 1 <;> simp [xa, e] at h
+  · intro i j _ _ _ hm; cases hm
+  · intro j _ _; simp [Fifo.empty, maxReq]
+  · intro j hj h
+    have e : j = 1 := by
+      by_cases e : j = 1
+      · exact e
+      · simp [xb, e] at h
+    subst e
+    rw [hg1]; simp
+  · intro i j _ _ h
+    by_cases e : i = 0 <;> simp [xb, e] at h
+  · intro j hj h
+    by_cases e : j = 1 <;> simp [xb, e] at h
+
+/-! ### Negative witness 1 — known finding `C08-decoder-second-addr-other-slave`
+
+  Master 0 has an unanswered request at slave 0 and presents an address of slave 1 (outside `sameSlave`): the
+  decoder's select is the locked register, so slave 0 sees and accepts it, slave 1 sees nothing. -/
+
+/-- cycle 0: address 0 (slave 0) accepted. -/
+def xc : DirIn :=
+  { ms := fun i => if i = 0 then { aValid := true, aAddr := 0 } else {},
+    ss := fun _ => { aReady := true } }
+/-- cycle 1: address 2 (slave 1) presented while the response of the first is outstanding; both slaves ready. -/
+def xd : DirIn :=
+  { ms := fun i => if i = 0 then { aValid := true, aAddr := 2 } else {},
+    ss := fun _ => { aReady := true } }
+
+example :
+    let M := Shared.machine cfg22 false
+    let s1 := M.next (Shared.init cfg22 false) xc
+    let o1 := M.out s1 xd
+    mReq xd o1 0 = true ∧ routes cfg22 1 (xd.ms 0).aAddr = true ∧ routes cfg22 0 (xd.ms 0).aAddr = false ∧
+    sReq xd o1 0 = true ∧ (o1.toS 0).aAddr = 2 ∧ sReq xd o1 1 = false := by
+  decide
+
+/-- … so the guarantee `RouteOK.addr_m` fails in that cycle (the same on the crossbar and for `rd = true`). -/
+example :
+    let M := Shared.machine cfg22 false
+    let s1 := M.next (Shared.init cfg22 false) xc
+    let g1 := fifoNext cfg22 false Fifo.empty xc (M.out (Shared.init cfg22 false) xc)
+    ¬ RouteOK cfg22 true g1 xd (M.out s1 xd) := by
+  intro M s1 g1 h
+  obtain ⟨j, hj, hr, hs⟩ := h.addr_m 0 (by decide) (by decide)
+  have : j = 0 ∨ j = 1 := by
+    have : j < 2 := hj
+    omega
+  rcases this with e | e <;> subst e
+  · revert hr; decide
+  · revert hs; decide
+
+example :
+    let M := Crossbar.machine { cfg22 with full := true } true
+    let s1 := M.next (Crossbar.init { cfg22 with full := true } true) xc
+    let o1 := M.out s1 xd
+    mReq xd o1 0 = true ∧ sReq xd o1 0 = true ∧ sReq xd o1 1 = false := by
+  decide
+
+/-! ### Negative witness 2 — known finding `C08-decoder-w-before-aw`
+
+  Write data handed over before its address is presented (outside NoDataBeforeAddr): with the counter at zero the
+  select is decoded from the idle `aw.addr` lines (0 → slave 0), so slave 0 takes the data; the address (slave 1)
+  presented in the next cycle goes to slave 1. -/
+
+/-- cycle 0: data valid, address idle (lines at 0); both slaves ready for data. -/
+def xe : DirIn :=
+  { ms := fun i => if i = 0 then { dValid := true, dPay := 0x155, aAddr := 0 } else {},
+    ss := fun _ => { dReady := true } }
+
+example :
+    let M := Shared.machine cfg22 false
+    let o0 := M.out (Shared.init cfg22 false) xe
+    let s1 := M.next (Shared.init cfg22 false) xe
+    let o1 := M.out s1 xd
+    mDat xe o0 0 = true ∧ sDat xe o0 0 = true ∧ sDat xe o0 1 = false ∧ (o0.toS 0).dPay = 0x155 ∧
+    mReq xd o1 0 = true ∧ sReq xd o1 1 = true ∧ sReq xd o1 0 = false := by
+  decide
+
+end Litex.C08
